@@ -15,6 +15,10 @@ NOT_DECIDED = 'Equality of reader dumps of original and copy (values).'
 def run(ctx, sess):
     ctx.explanation = EXPL
     ctx.not_decided = NOT_DECIDED
+    ctx.rule('C17.8', 'a definition read from the original is accepted unchanged by the copy: the alignment keeps the divisibility it established (shared with C16.7), so aligning an aligned definition again changes nothing')
+    from .common import relay
+    from . import c16 as _src_c16
+    relay(ctx, sess, _src_c16.run, {'C16.7': 'C17.8'})
     P = sess.prog('default')
     f = P.fn('jls_copy')
     ctx.saw(f)
